@@ -4,7 +4,7 @@ Require Import MPSV.Dpe.DpeDefs MPSV.Dpe.DpeModel.
 Extraction "../ocaml/dpe.ml"
   of_bits to_bits wrap64 wrap32
   rdpe_norm rdpe_set_d rdpe_set_2dl rdpe_get_d rdpe_get_d_old
-  rdpe_neg rdpe_abs rdpe_inv rdpe_sqr rdpe_sqr_eq rdpe_sqrt
+  rdpe_neg rdpe_abs rdpe_inv rdpe_sqr rdpe_sqr_eq rdpe_sqrt rdpe_inv_old rdpe_sqr_old rdpe_sqrt_old rdpe_div_old rdpe_mul_2exp_old rdpe_div_2exp_old cdpe_mul_2exp cdpe_div_2exp
   rdpe_mul rdpe_mul_old rdpe_mul_d rdpe_mul_d_old rdpe_mul_2exp rdpe_div_2exp
   rdpe_div rdpe_div_d rdpe_add rdpe_add_old_out_of_model rdpe_add_eq rdpe_sub rdpe_sub_eq rdpe_add_old rdpe_add_eq_old rdpe_sub_old rdpe_cmp_old
   rdpe_pow_si rdpe_pow_si_old
